@@ -6,6 +6,7 @@ Record case20 := { k_ty : ety; k_v : N; k_x : N }.      (* wrapper type, value w
 Record obs20 := { b_bytes : list N;      (* bytes read from guest memory after write_obj(wrapper) *)
                   b_native : N;          (* to_native() / u::from(w) *)
                   b_eq1 : bool; b_eq2 : bool;   (* w == x, x == w *)
+                  b_ne1 : bool; b_ne2 : bool;   (* w != x, x != w *)
                   b_size : N; b_align : N;      (* size_of / align_of the wrapper *)
                   b_nsize : N; b_nalign : N;    (* size_of / align_of the native type *)
                   b_routes : bool }.            (* every other storage route (typed reference, element array at index >= 1,
@@ -19,4 +20,6 @@ Definition ok_C20 (c : case20) (o : obs20) : bool :=
   list_eqb (b_bytes o) (wire_bytes (k_ty c) (k_v c)) &&
   (b_native o =? k_v c) &&
   Bool.eqb (b_eq1 o) (k_v c =? k_x c) && Bool.eqb (b_eq2 o) (k_v c =? k_x c) &&
+  (* comparison is true EXACTLY for the represented value: the negated operators are the exact negation *)
+  Bool.eqb (b_ne1 o) (negb (k_v c =? k_x c)) && Bool.eqb (b_ne2 o) (negb (k_v c =? k_x c)) &&
   (b_size o =? b_nsize o) && (b_align o =? b_nalign o) && (b_size o =? N.of_nat (e_size (k_ty c))) && b_routes o.
